@@ -1,5 +1,272 @@
-import Toq.Driver.Util
-/-! Driver handlers for C06 (stub; filled in by the owner of this property). -/
+import Toq.Driver.QJson
+import Toq.Model.ChannelProps
+/-! Driver handlers for C06: exact deciders of the channel predicates and closed forms of the built-in channels.
+
+Exact matrices over `ℚ[i]`: `{"r":rows,"c":cols,"den":D,"re":[…],"im":[…]}` (row-major integer numerators over the
+common denominator `D`; `"im"` may be omitted).  Rationals `[num, den]` or an integer.  Kraus argument:
+`{"tag":"flat","ops":[mat,…]}` or `{"tag":"nested","ops":[[mat,…],…]}`.
+
+* `c06_decide {"form":"kraus","phi":kraus}` / `{"form":"choi","di":..,"do":..,"J":mat}`, optional `"L"` (factor with
+  `J - L Lᴴ` diagonally dominant) and `"v"` (column vector with `vᴴ J v < 0`):
+  → `{"di","do","hp","psd","tp","unital","unitary":"yes|no|unknown","rank":n,"extremal":bool, …}`
+* `c06_unitary_mat {"U":mat}` → `{"unitary":bool}`
+* `c06_depolarizing {"d","p"[,"X"]}`, `c06_dephasing {"d","p"[,"X"]}`, `c06_reduction {"d","k"[,"X"]}`, `c06_choi {"a","b","c"[,"X"]}`
+  → `{"J":mat[,"out":mat,"via_choi":mat]}`
+* `c06_ad {"gamma","prob","shape":[r,c]|null[,"roots":{"sp","cp","sg","cg"}][,"X"]}`, `c06_pd {"gamma","shape"[,"roots":{"sg","cg"}][,"X"]}`,
+  `c06_bitflip {"prob","shape"[,"roots":{"s","c"}][,"X"]}` → `{"reject":…}` or `{"sq":[mat…][,"kraus":[mat…]][,"out":mat]}`
+* `c06_pauli {"p":[rat…][,"X"]}` → `{"reject":…}` or `{"q","J":mat,"strings":[mat…][,"out":mat]}` -/
+open Lean Toq.ChannelOps Toq.ChannelProps
+
 namespace Toq.Driver.C06
-def handlers : List (String × Handler) := []
+
+/-! ### JSON ↔ exact matrices -/
+
+def parseQMat (v : Json) : Except String (Mat QI) := do
+  let r ← getNat v "r"
+  let c ← getNat v "c"
+  let den ← getNat v "den"
+  if den == 0 then throw "matrix: zero denominator"
+  let re ← getIntArray v "re"
+  let im := (getIntArray v "im").toOption.getD (Array.replicate (r * c) 0)
+  if re.size != r * c || im.size != r * c then throw "matrix data size"
+  let d : Rat := (den : Rat)
+  let data : Array QI := (Array.range (r * c)).map fun t => ⟨((re[t]! : Int) : Rat) / d, ((im[t]! : Int) : Rat) / d⟩
+  return ⟨r, c, fun i j => data[i * c + j]!⟩
+
+def optQMat (j : Json) (k : String) : Except String (Option (Mat QI)) := do
+  if isNull j k then return none
+  return some (← parseQMat (← j.getObjVal? k))
+
+def lcmDen (a : Array QI) : Nat := a.foldl (fun acc x => Nat.lcm (Nat.lcm acc x.re.den) x.im.den) 1
+
+def numOver (q : Rat) (D : Nat) : Int := q.num * ((D / q.den : Nat) : Int)
+
+def qmatJson (r c : Nat) (f : Nat → Nat → QI) : Json :=
+  let a := arrayOfMat r c f
+  let D := lcmDen a
+  Json.mkObj [("r", Json.num r), ("c", Json.num c), ("den", Json.num D),
+    ("re", intArrayJson (a.map fun x => numOver x.re D)), ("im", intArrayJson (a.map fun x => numOver x.im D))]
+
+def ofRatFn (f : Nat → Nat → Rat) : Nat → Nat → QI := fun i j => ⟨f i j, 0⟩
+
+def parseQMatList (v : Json) : Except String (List (Mat QI)) := do
+  let a ← v.getArr?
+  a.toList.mapM parseQMat
+
+def parseKraus (v : Json) : Except String (KrausArg QI) := do
+  let tag ← (← v.getObjVal? "tag").getStr?
+  let ops ← v.getObjVal? "ops"
+  if tag == "flat" then return .flat (← parseQMatList ops)
+  else
+    let a ← ops.getArr?
+    return .nested (← a.toList.mapM parseQMatList)
+
+def emOfMat (n m : Nat) (M : Mat QI) : EMat n m := EMat.ofFn fun i j => M.e i.val j.val
+
+/-! ### the deciders -/
+
+def hDecide : Handler := fun j => do
+  let form ← (← j.getObjVal? "form").getStr?
+  let mut extra : List (String × Json) := []
+  let cf : Option ChoiForm ←
+    if form == "kraus" then do
+      let phi ← parseKraus (← j.getObjVal? "phi")
+      pure (choiOfArg phi)
+    else do
+      let di ← getNat j "di"
+      let dO ← getNat j "do"
+      let J ← parseQMat (← j.getObjVal? "J")
+      if J.r != di * dO || J.c != di * dO then pure none
+      else pure (some ⟨di, dO, emOfMat _ _ J⟩)
+  if form == "kraus" then
+    let phi ← parseKraus (← j.getObjVal? "phi")
+    match phi.split with
+    | some (as, bs) =>
+      match as with
+      | a :: _ =>
+        extra := [("n_ops", Json.num as.length),
+          ("tp_pairs", Json.str (eqV (sumAdjMul as bs a.c) (EMat.one : EMat a.c a.c)).str),
+          ("extremal_coded", Json.bool (extremalAsCoded a.c a.r (as.map (·.e))))]
+      | [] => pure ()
+    | none => pure ()
+  match cf with
+  | none => return reject "Shape"
+  | some c =>
+    let N := c.di * c.dO
+    let L ← optQMat j "L"
+    let v ← optQMat j "v"
+    let vE : Option (EMat N 1) ←
+      match v with
+      | some v => if v.r != N || v.c != 1 then throw "v: shape" else pure (some (emOfMat N 1 v))
+      | none => pure none
+    let rep : Report ←
+      match L with
+      | some L =>
+        if L.r != N then throw "L: shape"
+        else pure (report c (some (emOfMat N L.c L)) vE)
+      | none => pure (report (k := 0) c none vE)
+    return Json.mkObj ([("di", Json.num c.di), ("do", Json.num c.dO), ("hp", Json.str rep.hp.str),
+      ("psd", Json.str rep.psd.str), ("tp", Json.str rep.tp.str), ("unital", Json.str rep.unital.str),
+      ("unitary", Json.str rep.unitary.str), ("rank", Json.num rep.rank), ("extremal", Json.bool rep.extremal)] ++ extra)
+
+def hUnitaryMat : Handler := fun j => do
+  let U ← parseQMat (← j.getObjVal? "U")
+  if U.r != U.c then return Json.mkObj [("unitary", Json.bool false)]
+  return Json.mkObj [("unitary", Json.bool (unitaryMatDecide (emOfMat U.r U.r U)))]
+
+/-! ### Choi-form constructors -/
+
+def realPart (M : Mat QI) : Nat → Nat → Rat := fun i j => (M.e i j).re
+
+/-- answer with the Choi matrix and, when an input `X` is given, the textbook action and the action through the
+    Choi matrix (they agree by the `…_apply` theorems) -/
+def choiAnswer (j : Json) (d : Nat) (J : Nat → Nat → QI) (act : (Nat → Nat → QI) → Nat → Nat → QI) : Except String Json := do
+  let X ← optQMat j "X"
+  let base := [("J", qmatJson (d * d) (d * d) J)]
+  match X with
+  | none => return Json.mkObj base
+  | some X =>
+    if X.r != d || X.c != d then throw "X: shape"
+    return Json.mkObj (base ++ [("out", qmatJson d d (act X.e)), ("via_choi", qmatJson d d (actOfChoi J d d X.e))])
+
+/-- `ℚ[i]` with the division and casts the generic closed forms need -/
+instance : Div QI := ⟨fun a b => a * qinv b⟩
+instance : NatCast QI := ⟨fun n => ⟨(n : Rat), 0⟩⟩
+
+def hDepolarizing : Handler := fun j => do
+  let d ← getNat j "d"
+  let p : QI := ⟨← getRat j "p", 0⟩
+  if d == 0 then return reject "Dim"
+  choiAnswer j d (depolChoi d p) (depolAct d p)
+
+def hDephasing : Handler := fun j => do
+  let d ← getNat j "d"
+  let p : QI := ⟨← getRat j "p", 0⟩
+  if d == 0 then return reject "Dim"
+  choiAnswer j d (dephChoi d p) (dephAct p)
+
+def hReduction : Handler := fun j => do
+  let d ← getNat j "d"
+  let k : QI := ⟨← getRat j "k", 0⟩
+  if d == 0 then return reject "Dim"
+  choiAnswer j d (reductionChoi d k) (reductionAct d k)
+
+def hChoiMap : Handler := fun j => do
+  let a : QI := ⟨← getRat j "a", 0⟩
+  let b : QI := ⟨← getRat j "b", 0⟩
+  let c : QI := ⟨← getRat j "c", 0⟩
+  choiAnswer j 3 (choiMapChoi a b c) (choiMapAct a b c)
+
+/-! ### Kraus-form qubit constructors -/
+
+def optShape (j : Json) : Except String (Option (Nat × Nat)) := do
+  if isNull j "shape" then return none
+  match ← getNatList j "shape" with
+  | [r, c] => return some (r, c)
+  | _ => throw "shape"
+
+def optRat (j : Json) (k : String) : Except String (Option Rat) := do
+  if isNull j k then return none
+  return some (← getRat j k)
+
+def krausJson (l : List (Nat → Nat → QI)) : Json := Json.arr (l.map (qmatJson 2 2)).toArray
+
+/-- apply real 2×2 Kraus operators to a (complex) input -/
+def applyKraus2 (Ks : List (Nat → Nat → QI)) (X : Nat → Nat → QI) : Nat → Nat → QI := applyReal2 Ks X
+
+def qr (x : Rat) : QI := ⟨x, 0⟩
+
+/-- common tail: squared entries always; exact operators and output when valid roots are supplied -/
+def krausAnswer (j : Json) (sq : List (Nat → Nat → QI)) (exact : Option (List (Nat → Nat → QI))) : Except String Json := do
+  let X ← optQMat j "X"
+  let mut fields := [("sq", krausJson sq)]
+  match exact with
+  | none => pure ()
+  | some Ks =>
+    fields := fields ++ [("kraus", krausJson Ks)]
+    match X with
+    | some X => fields := fields ++ [("out", qmatJson 2 2 (applyKraus2 Ks X.e))]
+    | none => pure ()
+  return Json.mkObj fields
+
+def hAmplitudeDamping : Handler := fun j => do
+  let gamma ← getRat j "gamma"
+  let prob ← getRat j "prob"
+  let shape ← optShape j
+  match adGuard gamma prob shape with
+  | .ok =>
+    let sq := adKraus (qr prob) (qr (1 - prob)) (qr gamma) (qr (1 - gamma))
+    let exact : Option (List (Nat → Nat → QI)) ←
+      if isNull j "roots" then pure none
+      else do
+        let r ← j.getObjVal? "roots"
+        let sp ← getRat r "sp"; let cp ← getRat r "cp"; let sg ← getRat r "sg"; let cg ← getRat r "cg"
+        if sp * sp != prob || cp * cp != 1 - prob || sg * sg != gamma || cg * cg != 1 - gamma
+            || sp < 0 || cp < 0 || sg < 0 || cg < 0 then throw "roots do not square to the parameters"
+        pure (some (adKraus (qr sp) (qr cp) (qr sg) (qr cg)))
+    krausAnswer j sq exact
+  | g => return reject g.name
+
+def hPhaseDamping : Handler := fun j => do
+  let gamma ← getRat j "gamma"
+  let shape ← optShape j
+  match pdGuard gamma shape with
+  | .ok =>
+    let sq := pdKraus (qr gamma) (qr (1 - gamma))
+    let exact : Option (List (Nat → Nat → QI)) ←
+      if isNull j "roots" then pure none
+      else do
+        let r ← j.getObjVal? "roots"
+        let sg ← getRat r "sg"; let cg ← getRat r "cg"
+        if sg * sg != gamma || cg * cg != 1 - gamma || sg < 0 || cg < 0 then throw "roots do not square to the parameters"
+        pure (some (pdKraus (qr sg) (qr cg)))
+    krausAnswer j sq exact
+  | g => return reject g.name
+
+def hBitflip : Handler := fun j => do
+  let prob ← getRat j "prob"
+  let shape ← optShape j
+  match bfGuard prob shape with
+  | .ok =>
+    let sq := bfKraus (qr prob) (qr (1 - prob))
+    let exact : Option (List (Nat → Nat → QI)) ←
+      if isNull j "roots" then pure none
+      else do
+        let r ← j.getObjVal? "roots"
+        let s ← getRat r "s"; let c ← getRat r "c"
+        if s * s != prob || c * c != 1 - prob || s < 0 || c < 0 then throw "roots do not square to the parameters"
+        pure (some (bfKraus (qr s) (qr c)))
+    krausAnswer j sq exact
+  | g => return reject g.name
+
+def hPauli : Handler := fun j => do
+  let p ← getRatList j "p"
+  match pauliGuard p with
+  | .ok =>
+    match log4? p.length with
+    | none => return reject "ProbLength"
+    | some q =>
+      let d := 2 ^ q
+      let iu : QI := ⟨0, 1⟩
+      let pf : Nat → QI := fun k => qr (p.getD k 0)
+      let strings := (List.range (4 ^ q)).map fun k => qmatJson d d (pauliString iu q k)
+      let Jf := pauliChoi iu q pf
+      -- store the Choi matrix once
+      let Ja := arrayOfMat (d * d) (d * d) Jf
+      let J : Nat → Nat → QI := fun a b => Ja[a * (d * d) + b]!
+      let X ← optQMat j "X"
+      let base := [("q", Json.num q), ("J", qmatJson (d * d) (d * d) J), ("strings", Json.arr strings.toArray)]
+      match X with
+      | none => return Json.mkObj base
+      | some X =>
+        if X.r != d || X.c != d then throw "X: shape"
+        return Json.mkObj (base ++ [("out", qmatJson d d (actOfChoi J d d X.e))])
+  | g => return reject g.name
+
+def handlers : List (String × Handler) :=
+  [("c06_decide", hDecide), ("c06_unitary_mat", hUnitaryMat),
+   ("c06_depolarizing", hDepolarizing), ("c06_dephasing", hDephasing), ("c06_reduction", hReduction),
+   ("c06_choi", hChoiMap), ("c06_ad", hAmplitudeDamping), ("c06_pd", hPhaseDamping), ("c06_bitflip", hBitflip),
+   ("c06_pauli", hPauli)]
+
 end Toq.Driver.C06
